@@ -160,6 +160,40 @@ def _battery_case(ns, violations, cov):
                            "replay": {"kind": "battery"}})
 
 
+def _alias_cases(ctx, ns, disagreements, cov):
+    """Classes with an alias / a name-mangled private replicated method (known finding D86, witness d86): the real id table
+    (attribute names from `_methodToID`, versions from `_idToMethod`) against the model's `idToMethodX` (driver op `idsx`).
+    Correspondence only - the property statement for such classes is what the witness reports."""
+    import json
+    from harness.witness import d86_private_alias_id_shift as W
+    from pysyncobj import SyncObj, SyncObjConf, replicated
+    cases = [("private_old", W.OLD_PRIV, [(0, "__priv", 0), (0, "z", 0)], [(0, "_Obj__priv", 0)]),
+             ("private_new", W.NEW_PRIV, [(0, "__priv", 0), (0, "z", 0), (0, "__priv", 1)], [(0, "_Obj__priv", 1)]),
+             ("alias_old", W.OLD_ALIAS, [(0, "f", 0), (0, "z", 0)], [(0, "alias", 0)]),
+             ("alias_new", W.NEW_ALIAS, [(0, "f", 0), (0, "z", 0), (0, "f", 1)], [(0, "alias", 1)])]
+    lines, impls = [], []
+    for label, src, decls, aliases in cases:
+        g = {"SyncObj": SyncObj, "replicated": replicated}
+        exec(compile(src, "<alias-case>", "exec"), g)
+        o = g["Obj"](ns["Node"]("a"), [], conf=SyncObjConf(autoTick=False), transportClass=ns["DummyTransport"])
+        try:
+            inv = {i: k for k, i in o._methodToID.items()}
+            impls.append([[o._idToMethod[i].ver, 0, L.name_json(inv[i])] for i in range(len(o._idToMethod))])
+        finally:
+            o._doDestroy()
+        lines.append(L.jdump({"op": "idsx", "cls": [[ob, L.name_json(nm), v] for ob, nm, v in decls],
+                              "aliases": [[ob, L.name_json(nm), v] for ob, nm, v in aliases]}))
+    out = ctx.driver("versions", lines)
+    for (label, src, decls, aliases), impl, raw in zip(cases, impls, out):
+        res = json.loads(raw)
+        cov["alias_case"] += 1
+        if res.get("ids") != impl and len(disagreements) < 3:
+            disagreements.append({"input": {"case": label, "decls": decls, "aliases": aliases},
+                                  "model": [[v, ob, L.name_str(n)] for v, ob, n in res.get("ids", [])] or res,
+                                  "impl": [[v, ob, L.name_str(n)] for v, ob, n in impl],
+                                  "note": "id table of a class with an alias / private method (idToMethodX)"})
+
+
 def _monitor_pair(old_rec, new_rec, hyp, violations, cov):
     """Property statement: adding methods whose version is higher than every old version leaves every old id
     pointing at the same method."""
@@ -237,7 +271,8 @@ def run(ctx):
 
     cases = 0
     _battery_case(ns, violations, cov)
-    cases += 1
+    _alias_cases(ctx, ns, disagreements, cov)
+    cases += 5
     for old, new in _directed_specs():
         ro = one(old)
         cases += 1
@@ -307,7 +342,7 @@ def run(ctx):
            "disagreements": disagreements[:3], "violations": violations[:3]}
     floors = ["pair_hyp", "pair_nohyp", "pair_stable", "resolved", "keyerror", "objs_1", "objs_2", "objs_3",
               "ids_equal", "table_equal", "pair_new_version_of_old_method", "top_only_on_consumer", "top_on_object",
-              "battery_repllist_top_1"]
+              "battery_repllist_top_1", "alias_case"]
     missed = [f for f in floors if not cov.get(f)]
     if missed and not disagreements and not violations:
         res["inconclusive"] = "coverage floor missed: %s" % missed
